@@ -34,7 +34,12 @@ Local Open Scope Z_scope.
 
 Record dev := { d_noshort : bool; d_rtl : bool; d_twice : bool; d_elemcall : bool; d_retry : bool }.
 Definition dev_none : dev := {| d_noshort := false; d_rtl := false; d_twice := false; d_elemcall := false; d_retry := false |}.
-Definition dev_pinned : dev := {| d_noshort := true; d_rtl := true; d_twice := true; d_elemcall := true; d_retry := true |}.
+(* the implementation today: /repo commits a51b767 (&& || short-circuit in both evaluators), 2967bbb
+   (subscripts left to right) and df79998 (a[i] = f() calls f once) repaired three of the five
+   deviations; the typed re-evaluation of subscript lists and println's retry remain *)
+Definition dev_pinned : dev := {| d_noshort := false; d_rtl := false; d_twice := true; d_elemcall := false; d_retry := true |}.
+(* HISTORICAL: the implementation before those three commits (used to recognise a regression) *)
+Definition dev_before_fixes : dev := {| d_noshort := true; d_rtl := true; d_twice := true; d_elemcall := true; d_retry := true |}.
 
 Definition is_cmp (o : binop) : bool :=
   match o with Lt | Le | Gt | Ge | Eq | Ne => true | _ => false end.
